@@ -15,6 +15,15 @@ func setCollisionLimit(l uint32) { atree.VerifSetMaxCollisionLimitPerDigest(l) }
 // RunOracles evaluates the state oracles named in spec.Oracles on w.  w is a throw-away world:
 // the oracles may commit, reopen and load slabs.  Order: non-perturbing first.
 func RunOracles(w *World, spec Spec) error {
+	if spec.Has("crash") {
+		return OCrash(w)
+	}
+	if spec.Has("twin") {
+		if w.TwinBase == nil {
+			return fmt.Errorf("harness: space does not support the twin oracle")
+		}
+		return OTwin(w)
+	}
 	if spec.Has("sem") {
 		if err := w.DeepCheck(); err != nil {
 			return wrapViol(err, "content differs from model: ")
